@@ -97,6 +97,7 @@ def probe_consistency(D, N, seed):
     r = rng.normal(size=(C,) + (N,) * D)
     ju, jr = jnp.asarray(u), jnp.asarray(r)
     res = {}
+    scale0 = float(M.MSE(ju, jr, domain_extent=2 * L)) + 1.0   # relative deviations are stored multiplied by the common scale
     # Parseval: spatial == Fourier for the p=2 families
     res["parseval_MSE"] = abs(float(M.MSE(ju, jr, domain_extent=L)) - float(M.fourier_MSE(ju, jr, domain_extent=L)))
     res["parseval_RMSE"] = abs(float(M.RMSE(ju, jr, domain_extent=L)) - float(M.fourier_RMSE(ju, jr, domain_extent=L)))
@@ -147,6 +148,27 @@ def probe_consistency(D, N, seed):
     # Sobolev
     res["sobolev"] = abs(float(M.H1_MSE(ju, jr, domain_extent=L)) - float(M.fourier_MSE(ju, jr, domain_extent=L)) -
                          float(M.fourier_MSE(ju, jr, domain_extent=L, derivative_order=1)))
+    # "the derivative contributions (the entries of the gradient) are summed up": with a derivative order the Fourier
+    # metric is the SUM over the axes d of the plain metric of ∂_d^m(u) against ∂_d^m(r) — for every outer exponent
+    # (MSE-, RMSE- and normalized types). Odd N: no Nyquist mode, so the spectral derivative is the exact one.
+    if N % 2 == 1:
+        import exponax as ex
+        for m_ in (1, 2):
+            du = [np.stack([np.asarray(ex.derivative(ju[c:c + 1], L, order=m_))[d] for c in range(C)]) for d in range(D)]
+            dr = [np.stack([np.asarray(ex.derivative(jr[c:c + 1], L, order=m_))[d] for c in range(C)]) for d in range(D)]
+            for fn_f, fn_s in (("fourier_MSE", "MSE"), ("fourier_RMSE", "RMSE"), ("fourier_MAE", None), ("fourier_nRMSE", "nRMSE")):
+                if fn_s is None:
+                    continue
+                got = float(getattr(M, fn_f)(ju, jr, domain_extent=L, derivative_order=m_))
+                if fn_s.startswith("n"):
+                    # normalized: per channel, (sum_d |∂_d(u-r)|) / (sum_d |∂_d r|)
+                    want = sum(sum(float(M.RMSE(jnp.asarray(du[d][c:c + 1]), jnp.asarray(dr[d][c:c + 1]), domain_extent=L)) for d in range(D)) /
+                               sum(float(M.RMSE(jnp.asarray(dr[d][c:c + 1]), domain_extent=L)) for d in range(D)) for c in range(C))
+                else:
+                    want = sum(float(getattr(M, fn_s)(jnp.asarray(du[d]), jnp.asarray(dr[d]), domain_extent=L)) for d in range(D))
+                res[f"gradient_sum:{fn_f}:order{m_}"] = abs(got - want) / max(1.0, abs(want)) * scale0
+        res["sobolev_RMSE"] = abs(float(M.H1_RMSE(ju, jr, domain_extent=L)) - float(M.fourier_RMSE(ju, jr, domain_extent=L)) -
+                                  float(M.fourier_RMSE(ju, jr, domain_extent=L, derivative_order=1)))
     # correlation
     c = float(M.correlation(ju, jr))
     res["corr_range"] = max(0.0, abs(c) - 1.0)
